@@ -814,6 +814,53 @@ def run_file(ctx, i):
                 ctx.violation("no_exception", dict(desc, exc=repr(exc), phase="second import"),
                               message=f"second import_all raised {exc!r}")
 
+    # ---- scenario D: the session is emptied with PolygonFilter.remove (not clear_all_filters)
+    # before the file is loaded: every identifier in the file is free again and must come back
+    if loaded is not None and rng.random() < 0.7:
+        try:
+            PolygonFilter.clear_all_filters()
+            sess = [PolygonFilter(axes=f["axes"], points=f["points"], inverted=f["inverted"],
+                                  name=f["name"], unique_id=f["unique_id"]) for f in filters]
+            sess_ids = [p.unique_id for p in sess]
+            order = list(rng.permutation(len(sess)))
+            n_rm = len(sess) if rng.random() < 0.6 else int(rng.integers(1, len(sess) + 1))
+            removed = []
+            for j in order[:n_rm]:
+                PolygonFilter.remove(sess_ids[j])
+                removed.append(sess_ids[j])
+                ctx.count("filters_removed")
+            for uid in removed:
+                gone = not PolygonFilter.unique_id_exists(uid)
+                try:
+                    PolygonFilter.get_instance_from_id(uid)
+                    gone = False
+                except KeyError:
+                    pass
+                ctx.check("removed_id_is_free", gone,
+                          lambda: dict(desc, removed=removed, uid=uid),
+                          message=f"identifier {uid} still resolves after PolygonFilter.remove")
+            kept = set(sess_ids) - set(removed)
+            with warnings.catch_warnings(record=True) as wlist:
+                warnings.simplefilter("always")
+                third = PolygonFilter.import_all(path)
+            ctx.ev("no_exception")
+            ctx.check("roundtrip_count", len(third) == k, lambda: dict(desc, loaded=len(third)),
+                      message=f"{k} filters saved, {len(third)} imported after remove()")
+            taken = set(kept)
+            for j, (f, lp) in enumerate(zip(filters, third)):
+                free = exp_ids[j] not in taken
+                _check_loaded(ctx, "D:after-remove", f, exp_ids[j], exp_names[j], lp, rng,
+                              free, None)
+                taken.add(lp.unique_id)
+            ids = [p.unique_id for p in PolygonFilter.instances]
+            ctx.check("import_unique_ids", len(set(ids)) == len(ids),
+                      lambda: dict(desc, ids=ids), message="identifiers not unique after remove+import")
+            _registry_ok(ctx, "after remove + import")
+        except Exception as exc:
+            ctx.ev("no_exception")
+            ctx.violation("no_exception", dict(desc, exc=repr(exc), phase="remove + import"),
+                          message=f"remove + import_all raised {exc!r}")
+
     # ---- scenario C: direct access by file index
     PolygonFilter.clear_all_filters()
     for j in sorted(set(int(v) for v in rng.integers(0, k, 2))):
